@@ -229,6 +229,97 @@ func Round9Families() []OutsideAtom {
 	return out
 }
 
+// Round10Families: dimensions behind what independent reviewers of the unchanged tree reported (DESIGN.md 8.8).
+//
+//	val_*     function and method VALUES whose callee has no GooseLang definition of that name
+//	blank_*   top-level declarations named _
+//	logpost_* a logging call where an expression is required
+//	drop_*    operands that the translation drops although evaluating them has effects
+//	deftype_* types defined as / aliased to other named types, methods declared through an alias
+//	recstruct_* struct types that mention themselves
+//	tupdep_*  tuple assignments whose targets depend on each other
+//	binder_*  parameters named like the definition
+//	nilctx_*  nil outside comparisons
+func Round10Families() []OutsideAtom {
+	var out []OutsideAtom
+	add := func(id, code string, noloop bool, imports ...string) {
+		out = append(out, OutsideAtom{ID: id, Kind: "stmt", Code: code, NoLoop: noloop, Imports: imports, Site: "round-10 family: " + id})
+	}
+	addDecl := func(id, code string) {
+		out = append(out, OutsideAtom{ID: id, Kind: "decl", Code: strings.ReplaceAll(code, "ID", id), Site: "round-10 family: " + id})
+	}
+	ifc := "type I_ID interface {\n\tget() uint64\n}\n\ntype S_ID struct {\n\tv uint64\n}\n\nfunc (s S_ID) get() uint64 {\n\treturn s.v + 1\n}\n\n"
+	// --- values
+	addDecl("val_interface_method_value", ifc+"func h_ID(i I_ID) uint64 {\n\tf := i.get\n\treturn f() + 2\n}\n\nfunc ID_fn(a uint64) uint64 {\n\treturn h_ID(S_ID{v: a})\n}")
+	addDecl("val_named_nonstruct_method_value", "type N_ID uint64\n\nfunc (n N_ID) add(k uint64) uint64 {\n\treturn uint64(n) + k\n}\n\nfunc ID_fn(a uint64) uint64 {\n\tn := N_ID(a % 100)\n\tf := n.add\n\treturn f(2)\n}")
+	addDecl("val_named_nonstruct_method_call", "type N_ID uint64\n\nfunc (n N_ID) add(k uint64) uint64 {\n\treturn uint64(n) + k\n}\n\nfunc ID_fn(a uint64) uint64 {\n\tn := N_ID(a % 100)\n\treturn n.add(2)\n}")
+	addDecl("val_struct_method_value_with_parameter", "type S_ID struct {\n\tv uint64\n}\n\nfunc (s *S_ID) add(k uint64) uint64 {\n\ts.v = s.v + k\n\treturn s.v\n}\n\nfunc ID_fn(a uint64) uint64 {\n\ts := &S_ID{v: a % 100}\n\tf := s.add\n\tr := f(2)\n\treturn r*100 + f(3)\n}")
+	add("val_mutex_method_values", "mu9 := new(sync.Mutex)\n\tlk9 := mu9.Lock\n\tul9 := mu9.Unlock\n\tlk9()\n\tx += 1\n\tul9()", false)
+	add("val_waitgroup_method_value", "wg9 := new(sync.WaitGroup)\n\twg9.Add(1)\n\tdn9 := wg9.Done\n\tdn9()\n\twg9.Wait()\n\tx += 1", false)
+	add("val_cond_lock_field", "mu9 := new(sync.Mutex)\n\tc9 := sync.NewCond(mu9)\n\tc9.L.Lock()\n\tx += 1\n\tc9.L.Unlock()", false)
+	add("val_machine_function_value", "get9 := machine.UInt64Get\n\tb9 := make([]byte, 8)\n\tb9[0] = 3\n\tx += get9(b9)", false)
+	add("val_machine_function_called", "b9 := make([]byte, 8)\n\tb9[0] = 3\n\tx += machine.UInt64Get(b9)", false)
+	add("val_address_of_global", "pg9 := &Factor\n\tx += *pg9", false)
+	add("val_global_read", "x += Factor", false)
+	// --- blank top-level names
+	addDecl("blank_function", "func _() {\n}\n\nfunc ID_fn(a uint64) uint64 {\n\treturn a + 1\n}")
+	addDecl("blank_function_twice", "func _() {\n}\n\nfunc _() uint64 {\n\treturn 2\n}\n\nfunc ID_fn(a uint64) uint64 {\n\treturn a + 1\n}")
+	addDecl("blank_variable", "var _ = uint64(3)\n\nfunc ID_fn(a uint64) uint64 {\n\treturn a + 1\n}")
+	addDecl("blank_constant", "const _ uint64 = 4\n\nfunc ID_fn(a uint64) uint64 {\n\treturn a + 1\n}")
+	addDecl("blank_type", "type _ struct {\n\ta uint64\n}\n\nfunc ID_fn(a uint64) uint64 {\n\treturn a + 1\n}")
+	addDecl("blank_method", "type S_ID struct {\n\ta uint64\n}\n\nfunc (s S_ID) _() uint64 {\n\treturn s.a\n}\n\nfunc ID_fn(a uint64) uint64 {\n\treturn a + 1\n}")
+	addDecl("blank_parameter", "func h_ID(_ uint64, b uint64) uint64 {\n\treturn b + 1\n}\n\nfunc ID_fn(a uint64) uint64 {\n\treturn h_ID(7, a)\n}")
+	// --- logging where an expression is required
+	add("logpost_fmt_println", "for i9 := uint64(0); i9 < 2; fmt.Println(\"tick\") {\n\t\ti9++\n\t\tx += 1\n\t}", true, "fmt")
+	add("logpost_log_printf", "for i9 := uint64(0); i9 < 2; log.Printf(\"%d\", x) {\n\t\ti9++\n\t\tx += 1\n\t}", true, "log")
+	add("logpost_in_loop_body_only", "for i9 := uint64(0); i9 < 2; i9++ {\n\t\tfmt.Println(\"tick\")\n\t\tx += 1\n\t}", true, "fmt")
+	add("logpost_only_statement_of_branch", "if x > 3 {\n\t\tfmt.Println(\"big\")\n\t} else {\n\t\tfmt.Println(\"small\")\n\t}\n\tx += 1", false, "fmt")
+	add("logpost_only_statement_of_closure", "f9 := func() {\n\t\tfmt.Println(\"in\")\n\t}\n\tf9()\n\tx += 1", false, "fmt")
+	add("logpost_last_statement_of_loop_body", "for _, v9 := range s {\n\t\tx += v9\n\t\tlog.Println(\"v\", v9)\n\t}", true, "log")
+	// --- dropped operands with effects
+	add("drop_map_size_hint_call", "m9 := make(map[uint64]uint64, bump(q))\n\tm9[1] = 2\n\tx += uint64(len(m9)) + *q", false)
+	add("drop_map_size_hint_plain", "m9 := make(map[uint64]uint64, x%8+1)\n\tm9[1] = 2\n\tx += uint64(len(m9))", false)
+	add("drop_slice_length_call", "t9 := make([]uint64, bump(q)%3+1)\n\tx += uint64(len(t9)) + *q", false)
+	add("drop_slice_capacity_call", "t9 := make([]uint64, 1, bump(q)%3+2)\n\tx += uint64(len(t9)) + *q", false)
+	// --- ifc: the variadic guard on the conversion path
+	addDecl("ifc_variadic_after_interface", ifc+"func take_ID(i I_ID, rest ...uint64) uint64 {\n\treturn i.get() + uint64(len(rest))\n}\n\nfunc ID_fn(a uint64) uint64 {\n\treturn take_ID(S_ID{v: a}, 5, 6)\n}")
+	addDecl("ifc_variadic_after_interface_empty", ifc+"func take_ID(i I_ID, rest ...uint64) uint64 {\n\treturn i.get() + uint64(len(rest))\n}\n\nfunc ID_fn(a uint64) uint64 {\n\treturn take_ID(S_ID{v: a})\n}")
+	// --- defined and aliased types
+	addDecl("deftype_over_struct", "type S_ID struct {\n\ta uint64\n}\n\ntype T_ID S_ID\n\nfunc ID_fn(a uint64) uint64 {\n\tt := T_ID{a: a}\n\treturn t.a + 1\n}")
+	addDecl("deftype_over_struct_new", "type S_ID struct {\n\ta uint64\n}\n\ntype T_ID S_ID\n\nfunc ID_fn(a uint64) uint64 {\n\tt := new(T_ID)\n\tt.a = a\n\treturn t.a + 1\n}")
+	addDecl("deftype_over_struct_unused", "type S_ID struct {\n\ta uint64\n}\n\ntype T_ID S_ID\n\nfunc ID_fn(a uint64) uint64 {\n\treturn a + 1\n}")
+	addDecl("deftype_over_interface", ifc+"type J_ID I_ID\n\nfunc h_ID(j J_ID) uint64 {\n\treturn j.get()\n}\n\nfunc ID_fn(a uint64) uint64 {\n\treturn h_ID(S_ID{v: a})\n}")
+	addDecl("deftype_alias_receiver_value", "type S_ID struct {\n\ta uint64\n}\n\ntype A_ID = S_ID\n\nfunc (s A_ID) get() uint64 {\n\treturn s.a + 1\n}\n\nfunc ID_fn(a uint64) uint64 {\n\ts := S_ID{a: a}\n\treturn s.get()\n}")
+	addDecl("deftype_alias_receiver_pointer", "type S_ID struct {\n\ta uint64\n}\n\ntype A_ID = S_ID\n\nfunc (s *A_ID) set(x uint64) {\n\ts.a = x\n}\n\nfunc ID_fn(a uint64) uint64 {\n\ts := &S_ID{a: 1}\n\ts.set(a + 2)\n\treturn s.a\n}")
+	addDecl("deftype_alias_in_signature", "type S_ID struct {\n\ta uint64\n}\n\ntype A_ID = S_ID\n\nfunc h_ID(s *A_ID) uint64 {\n\treturn s.a + 1\n}\n\nfunc ID_fn(a uint64) uint64 {\n\treturn h_ID(&S_ID{a: a})\n}")
+	addDecl("deftype_alias_of_uint32_conversion", "type U_ID = uint32\n\nfunc ID_fn(a uint64) uint64 {\n\treturn uint64(U_ID(a)) + 1\n}")
+	addDecl("deftype_alias_of_uint64_widening", "type U_ID = uint64\n\nfunc w_ID(a uint32, b uint32) uint64 {\n\treturn U_ID(a) + U_ID(b)\n}\n\nfunc ID_fn(a uint64) uint64 {\n\treturn w_ID(uint32(a), 4294967295)\n}")
+	addDecl("deftype_alias_of_byte_conversion", "type B_ID = byte\n\nfunc ID_fn(a uint64) uint64 {\n\treturn uint64(B_ID(a)) + 1\n}")
+	// --- struct types that mention themselves
+	addDecl("recstruct_slice_of_self", "type T_ID struct {\n\tv    uint64\n\tkids []T_ID\n}\n\nfunc ID_fn(a uint64) uint64 {\n\tt := T_ID{v: a}\n\treturn t.v + uint64(len(t.kids))\n}")
+	addDecl("recstruct_map_of_self", "type T_ID struct {\n\tv uint64\n\tm map[uint64]T_ID\n}\n\nfunc ID_fn(a uint64) uint64 {\n\tt := &T_ID{v: a}\n\treturn t.v + 1\n}")
+	addDecl("recstruct_function_of_self", "type T_ID struct {\n\tv uint64\n\tf func(T_ID) uint64\n}\n\nfunc ID_fn(a uint64) uint64 {\n\tt := &T_ID{v: a}\n\treturn t.v + 1\n}")
+	addDecl("recstruct_pointer_to_self", "type T_ID struct {\n\tv    uint64\n\tnext *T_ID\n}\n\nfunc ID_fn(a uint64) uint64 {\n\tt := &T_ID{v: a}\n\tu := &T_ID{v: 1, next: t}\n\treturn u.next.v + u.v\n}")
+	addDecl("recstruct_slice_of_pointer_to_self", "type T_ID struct {\n\tv    uint64\n\tkids []*T_ID\n}\n\nfunc ID_fn(a uint64) uint64 {\n\tt := &T_ID{v: a}\n\treturn t.v + uint64(len(t.kids))\n}")
+	// --- tuple assignments whose targets depend on each other
+	add("tupdep_index_uses_earlier_target", "var i9 uint64 = 0\n\ti9, s[i9] = two(0)\n\tx += i9*100 + s[0]*10 + s[1]", false)
+	add("tupdep_index_uses_later_target", "var i9 uint64 = 0\n\ts[i9], i9 = two(0)\n\tx += i9*100 + s[0]*10 + s[1]", false)
+	add("tupdep_independent_targets", "var i9 uint64 = 0\n\tvar j9 uint64 = 1\n\ti9, s[j9] = two(0)\n\tx += i9*100 + s[0]*10 + s[1]", false)
+	addDecl("tupdep_field_of_earlier_target", "type S_ID struct {\n\tx uint64\n}\n\nfunc new_ID() (*S_ID, uint64) {\n\treturn &S_ID{x: 0}, 3\n}\n\nfunc ID_fn(a uint64) uint64 {\n\tvar p *S_ID = &S_ID{x: a % 10}\n\told := p\n\tp, p.x = new_ID()\n\treturn old.x*10 + p.x\n}")
+	// --- parameters named like the definition
+	addDecl("binder_method_parameter", "type S_ID struct {\n\tn uint64\n}\n\nfunc (s S_ID) down(S_ID__down uint64) uint64 {\n\tif s.n == 0 {\n\t\treturn S_ID__down\n\t}\n\treturn S_ID{n: s.n - 1}.down(S_ID__down)\n}\n\nfunc ID_fn(a uint64) uint64 {\n\treturn S_ID{n: 3}.down(a)\n}")
+	addDecl("binder_function_parameter", "func r_ID(r_ID uint64) uint64 {\n\treturn r_ID + 1\n}\n\nfunc ID_fn(a uint64) uint64 {\n\treturn r_ID(a)\n}")
+	addDecl("binder_local_variable", "func r_ID(n uint64) uint64 {\n\tr_ID := n + 1\n\treturn r_ID\n}\n\nfunc ID_fn(a uint64) uint64 {\n\treturn r_ID(a)\n}")
+	// --- nil outside comparisons (recorded finding: the gold files pin `SliceSet ptrT "s" #2 slice.nil`)
+	nl := "type L_ID struct {\n\tv    uint64\n\tnext *L_ID\n}\n\nfunc isNil_ID(p *L_ID) bool {\n\treturn p == nil\n}\n\n"
+	addDecl("nilctx_pointer_argument", nl+"func ID_fn(a uint64) uint64 {\n\tif isNil_ID(nil) {\n\t\treturn a + 1\n\t}\n\treturn 0\n}")
+	addDecl("nilctx_pointer_assigned", nl+"func ID_fn(a uint64) uint64 {\n\tvar p *L_ID = &L_ID{v: a}\n\tp = nil\n\tif p == nil {\n\t\treturn a + 1\n\t}\n\treturn 0\n}")
+	addDecl("nilctx_pointer_returned", nl+"func none_ID() *L_ID {\n\treturn nil\n}\n\nfunc ID_fn(a uint64) uint64 {\n\tif none_ID() == nil {\n\t\treturn a + 1\n\t}\n\treturn 0\n}")
+	addDecl("nilctx_pointer_field", nl+"func ID_fn(a uint64) uint64 {\n\tl := &L_ID{v: a, next: nil}\n\tif l.next == nil {\n\t\treturn a + 1\n\t}\n\treturn 0\n}")
+	addDecl("nilctx_slice_argument", "func n_ID(s []uint64) uint64 {\n\treturn uint64(len(s))\n}\n\nfunc ID_fn(a uint64) uint64 {\n\treturn n_ID(nil) + a\n}")
+	return out
+}
+
 // BlockBinderAtoms: SUPPORTED statements (they join InsideAtoms): the dimension "what introduces a name inside a bare
 // block". Each block binds y, which shadows the host's y, to something else; the statement after the block reads the
 // outer y. A binder that the translation lets escape from the block's parentheses (a let that is not closed at the
